@@ -246,4 +246,52 @@ def runOps (s : St) : List Op → St × List Out
     let rs := runOps r.1 ops
     (rs.1, r.2 :: rs.2)
 
+/-- the specified digest per algorithm -/
+def AlgId.spec : AlgId → Bytes → Bytes
+  | .sha256 => Percival.Spec.Sha256.hash
+  | .sha1 => Percival.Spec.Sha1.hash
+  | .md5 => Percival.Spec.Md5.hash
+
+/-- was the counter of `a`'s context forged (`addcnt`) since its `init` -/
+def St.forged (st : St) : AlgId → Bool
+  | .sha256 => st.s256.forged
+  | .sha1 => st.s1.forged
+  | .md5 => st.s5.forged
+
+/-- `init a`, one `upd a` per chunk -/
+def streamOps (a : AlgId) (chunks : List Bytes) : List Op :=
+  .slot a .init :: chunks.map fun b => .slot a (.upd b)
+
+/-! ## what the recorded bytes mean (the reachable-state invariant; proved in `Proofs/HashStep.lean`) -/
+
+/-- the context is `_Init` followed by `_Update` calls whose buffers concatenate to the recorded bytes -/
+def Streamed (f : Fam) (c : Hash.Ctx f.h.alg) (msg : Bytes) : Prop :=
+  ∃ chunks : List Bytes, chunks.flatten = msg ∧ c = chunks.foldl (Hash.update f.h.alg) (Hash.init f.h.alg)
+
+/-- the HMAC context is `HMAC_Init` with the recorded key followed by `HMAC_Update` calls whose buffers
+    concatenate to the recorded bytes -/
+def HStreamed (f : Fam) (c : Hmac.Ctx f.h) (key msg : Bytes) : Prop :=
+  ∃ (c0 : Hmac.Ctx f.h) (chunks : List Bytes),
+    Hmac.init f.h key = some c0 ∧ chunks.flatten = msg ∧ c = chunks.foldl (Hmac.update f.h) c0
+
+/-- one slot: unless the counter was forged, the hash context is the stream of the recorded bytes; the HMAC
+    context is the stream of the recorded key and bytes -/
+structure SlotOk {f : Fam} (s : Slot f) : Prop where
+  h : ∀ c msg, s.h = some (c, msg) → s.forged = false → Streamed f c msg
+  m : ∀ c key msg, s.m = some (c, key, msg) → HStreamed f c key msg
+
+structure StOk (st : St) : Prop where
+  s256 : SlotOk st.s256
+  s1 : SlotOk st.s1
+  s5 : SlotOk st.s5
+  /-- the CRC state is `CRC32C_Init` followed by `CRC32C_Update` calls over the recorded bytes -/
+  crc : ∀ s data, st.crc = some (s, data) →
+    ∃ chunks : List Bytes, chunks.flatten = data ∧ s = chunks.foldl Crc32c.update Crc32c.init
+
+/-- PBKDF2's contract (RFC 8018 §5.2: `c ≥ 1`; the C treats `c = 0` as `c = 1`, the Spec's `F` is then the
+    empty XOR) -/
+def InContract : Op → Prop
+  | .pbkdf2 _ _ c _ => 1 ≤ c
+  | _ => True
+
 end Percival.Model.HashStep
